@@ -133,6 +133,8 @@ def fit_plain(case):
     p = case["params"]
     quant, cat, ordi = feature_lists(case)
     orders = {f["name"]: GroupedList(decs(f["order"])) for f in case["features"] if f["kind"] == "ord"}
+    orders.update({f["name"]: GroupedList(decs(f["declared"])) for f in case["features"]
+                   if f["kind"] == "cat" and f.get("declared")})
     obj = MulticlassCarver(sort_by=p["sort_by"], min_freq=p["min_freq"], quantitative_features=quant,
                            qualitative_features=cat, ordinal_features=ordi, values_orders=orders,
                            max_n_mod=p["max_n_mod"], output_dtype=p["output_dtype"], dropna=p["dropna"],
@@ -166,6 +168,8 @@ def base_modalities(case):
     res = {}
     for suffix, y in targets_of(case):
         orders = {f["name"]: GroupedList(decs(f["order"])) for f in case["features"] if f["kind"] == "ord"}
+        orders.update({f["name"]: GroupedList(decs(f["declared"])) for f in case["features"]
+                       if f["kind"] == "cat" and f.get("declared")})
         try:
             disc = Discretizer(quantitative_features=quant, qualitative_features=cat, ordinal_features=ordi,
                                values_orders=orders, min_freq=p["min_freq"], copy=True, verbose=False,
